@@ -7,6 +7,7 @@ package router
 import (
 	"fmt"
 	"net"
+	"net/http"
 	"net/netip"
 	"strings"
 	"testing"
@@ -49,7 +50,7 @@ type c15Outcome struct {
 	kind string // "answer", "refused", "closed", "none"
 }
 
-func c15Seams() []string { return []string{"udp", "tcp", "gnet", "http"} }
+func c15Seams() []string { return []string{"udp", "tcp", "gnet", "http", "http-client-addr-header"} }
 
 func c15SeamScenario(c *choice.Ctx, rep *report.R, depth int) {
 	own := env.InstallOwn(0xA5, vRace)
@@ -58,12 +59,21 @@ func c15SeamScenario(c *choice.Ctx, rep *report.R, depth int) {
 	burst := []int{4, 8, 9}[c.Choose(3, "burst")]
 	// the upstream may fail every exchange: the client is answered SERVFAIL, and an admitted query still costs what it costs
 	upFails := c.Choose(2, "upstream-fails") == 1
+	// which subnets: IPv4 clients under the default masks (/24), IPv6 clients under the default masks (/48), IPv6 clients under
+	// configured masks (v4_mask 32, v6_mask 64). The udp seam uses real loopback sockets and stays with IPv4.
+	masks := "default-v4"
+	if seam != "udp" {
+		masks = []string{"default-v4", "default-v6", "configured-32-64"}[c.Choose(3, "masks")]
+	}
 	var trace []string
 	fail := func(sig, msg string) {
-		rep.Violate("C15:"+seam+":"+sig, fmt.Sprintf("%s\n  burst=%d rate=1/s upstream-fails=%v events: %s", msg, burst, upFails, strings.Join(trace, " ")), map[string]any{"Choices": c.Choices()})
+		rep.Violate("C15:"+seam+":"+sig, fmt.Sprintf("%s\n  burst=%d rate=1/s masks=%s upstream-fails=%v events: %s", msg, burst, masks, upFails, strings.Join(trace, " ")), map[string]any{"Choices": c.Choices()})
 	}
 	cfg := c03Config("forward")
 	cfg.Limiter.Client = ClientLimiterConfig{Limit: 1, Burst: burst}
+	if masks == "configured-32-64" {
+		cfg.Limiter.Client.V4Mask, cfg.Limiter.Client.V6Mask = 32, 64
+	}
 	v, err := vNewRouter(cfg, "u1")
 	if err != nil {
 		fail("router-start", err.Error())
@@ -78,6 +88,12 @@ func c15SeamScenario(c *choice.Ctx, rep *report.R, depth int) {
 		return &upResult{wire: env.Answer(q.Msg, 1, 60).Encode(false)}
 	}
 	clients := map[string]string{"A": "127.1.1.7", "A2": "127.1.1.200", "B": "127.1.2.7"} // A, A2 share a /24
+	switch masks {
+	case "default-v6":
+		clients = map[string]string{"A": "2001:db8:1:1::7", "A2": "2001:db8:1:2::9", "B": "2001:db8:2:1::7"} // A, A2 share a /48
+	case "configured-32-64":
+		clients = map[string]string{"A": "2001:db8:1:1::7", "A2": "2001:db8:1:1::9", "B": "2001:db8:1:2::7"} // A, A2 share a /64; B is in the same /48
+	}
 	// per seam: a function that sends one query from a client and classifies what happened
 	type sender func(who string, id uint16) string
 	var send sender
@@ -180,11 +196,21 @@ func c15SeamScenario(c *choice.Ctx, rep *report.R, depth int) {
 			m, _ := refdns.Decode(fs[0])
 			return classify(m)
 		}
-	case "http":
+	case "http", "http-client-addr-header":
 		minCost, firstCost = costHTTPQuery, costHTTPQuery
 		h := v.newHTTPHandler()
+		if seam == "http-client-addr-header" {
+			h.clientAddrHeader = "X-Real-Client"
+		}
 		send = func(who string, id uint16) string {
-			res := vDoHRequest(h, "POST", q(id).Encode(false), clients[who]+":999", nil)
+			peer := netip.AddrPortFrom(netip.MustParseAddr(clients[who]), 999).String()
+			var mod func(*http.Request)
+			if seam == "http-client-addr-header" {
+				// behind a front-end: every request comes from the front-end's address, the client is named by the header
+				peer = "203.0.113.9:443"
+				mod = func(r *http.Request) { r.Header.Set("X-Real-Client", clients[who]) }
+			}
+			res := vDoHRequest(h, "POST", q(id).Encode(false), peer, mod)
 			wait()
 			if !res.done {
 				return "none(0)"
